@@ -93,7 +93,11 @@ def run(ctx, progs):
     for r_, t_ in (("PAN1", "feasible explicit panic sites per public entry == documented table"), ("PAN2", "range arguments of reviewed non-panicking shape"),
                    ("PAN3", "no buffer write on a path from a panicking entry to its panic site")):
         ctx.rule(r_, t_ + " (decided for symbolic N and T)")
+    ctx.rule("ITERAGG1", "every Iter/IterMut is built from (first, second) of one view or (right, left) of one iterator")
     for cfg, prog in progs.items():
+        from . import c08 as _c08i
+
+        _c08i.iteragg1(ctx, prog, cfg)
         pos1(ctx, prog, cfg)
         from . import c11 as _c11
 
